@@ -290,6 +290,9 @@ func runC15() {
 		e2.I, e2.I8, e2.I16, e2.I32, e2.I64 = -56, -56, -1, -1, -1
 		e2.U, e2.U8, e2.U16, e2.U32, e2.U64 = 1<<64-1, 200, 65535, 1<<32-1, 1<<64-1
 		envs = append(envs, e2)
+		if nEnvs < 5 {
+			envs = append(envs, wrapEnv()) // narrow members equal to out-of-range literals modulo 2^bits
+		}
 	}
 	g := &egen{rng: rng, wrong: 20, hist: rep.Histogram}
 	var srcs []string
